@@ -133,11 +133,12 @@ func recs3Str(rs []rec3) string {
 // ---- the genuine ring of a zone (RFC 5155 section 7.1) ----
 
 type zone3 struct {
-	z      *zone
-	salt   []byte
-	iter   int
-	optOut bool
-	opted  map[string]bool // insecure delegations left out of the ring
+	z       *zone
+	salt    []byte
+	iter    int
+	optOut  bool
+	minimal bool            // Opt-Out flag only on the spans that hide an opted-out delegation
+	opted   map[string]bool // insecure delegations left out of the ring
 }
 
 var (
@@ -195,12 +196,28 @@ func (z3 *zone3) ring() []rec3 {
 		hs = append(hs, hx{hashOf(nd.n, z3.salt, z3.iter), nd})
 	}
 	sort.Slice(hs, func(i, j int) bool { return bytes.Compare(hs[i].h, hs[j].h) < 0 })
-	fl := 0
-	if z3.optOut {
-		fl = 1
+	var hidden [][]byte
+	for _, nd := range z3.z.auth() {
+		if z3.opted[nd.n.key()] {
+			hidden = append(hidden, hashOf(nd.n, z3.salt, z3.iter))
+		}
 	}
 	var out []rec3
 	for i, x := range hs {
+		fl := 0
+		if z3.optOut {
+			fl = 1
+			if z3.minimal {
+				fl = 0
+				o, n := x.h, hs[(i+1)%len(hs)].h
+				for _, h := range hidden {
+					on, ho, hn := bytes.Compare(o, n), bytes.Compare(h, o), bytes.Compare(h, n)
+					if (on == 0 && ho != 0) || (on < 0 && ho > 0 && hn < 0) || (on > 0 && (ho > 0 || hn < 0)) {
+						fl = 1
+					}
+				}
+			}
+		}
 		ts := sortedTypes(x.nd.types)
 		// RRSIG/NSEC bits of the NSEC model do not apply: NSEC3 bitmaps list the
 		// owner's types (+RRSIG when anything authoritative is there), never NSEC.
@@ -347,8 +364,9 @@ func matchIn(rs []rec3, h []byte) *rec3 {
 }
 
 // restsOnOptOut: does the proof the validator must have used for q go through
-// an opt-out span?  (deepest matched ancestor, then the cover of its child)
-func restsOnOptOut(q name) bool {
+// an opt-out span?  (deepest matched ancestor, then the cover of its child;
+// with wild also the cover of the wildcard at that ancestor)
+func restsOnOptOut(q name, wild bool) bool {
 	q = q.fold()
 	for k := len(q); k >= len(curZ3.z.apex); k-- {
 		if matchIn(curSet3, hashOf(q.suffix(k), curZ3.salt, curZ3.iter)) != nil {
@@ -356,7 +374,14 @@ func restsOnOptOut(q name) bool {
 				return false
 			}
 			c := coverIn(curSet3, hashOf(q.suffix(k+1), curZ3.salt, curZ3.iter))
-			return c != nil && c.flags&1 == 1
+			if c != nil && c.flags&1 == 1 {
+				return true
+			}
+			if wild {
+				w := coverIn(curSet3, hashOf(q.suffix(k).child("*"), curZ3.salt, curZ3.iter))
+				return w != nil && w.flags&1 == 1
+			}
+			return false
 		}
 	}
 	return false
@@ -369,6 +394,10 @@ func execNsec3(f []string) vlib.Res {
 		z3 := &zone3{z: z, salt: vlib.UnHex(f[5]), iter: atoi(f[6]), opted: map[string]bool{}}
 		if f[7] != "-" {
 			z3.optOut = true
+			if strings.HasPrefix(f[7], "~") {
+				z3.minimal = true
+				f[7] = f[7][1:]
+			}
 			if f[7] != "+" {
 				for _, p := range strings.Split(f[7], ";") {
 					z3.opted[parseName(p).key()] = true
@@ -439,7 +468,7 @@ func execNsec3(f []string) vlib.Res {
 					res.Oracle = fmt.Sprintf("FAIL sig=nsec3/%s/mixed-set-accepted", entry)
 				case c != curZ3.z.cls:
 					res.Oracle = fmt.Sprintf("FAIL sig=nsec3/%s/wrong-class-accepted", entry)
-				case secure && restsOnOptOut(q):
+				case secure && restsOnOptOut(q, false):
 					res.Oracle = fmt.Sprintf("FAIL sig=nsec3/%s/optout-marked-secure", entry)
 				case secure && truth != want:
 					res.Oracle = fmt.Sprintf("FAIL sig=nsec3/%s/%s-accepted truth=%s", entry, why, truth)
@@ -468,7 +497,7 @@ func execNsec3(f []string) vlib.Res {
 					res.Oracle = "FAIL sig=nsec3/delegation/ds-present-accepted"
 				case nd != nil && !nd.isDeleg():
 					res.Oracle = "FAIL sig=nsec3/delegation/not-a-delegation-accepted"
-				case nd == nil && !restsOnOptOut(d):
+				case nd == nil && !restsOnOptOut(d, false):
 					res.Oracle = "FAIL sig=nsec3/delegation/no-owner-no-optout-accepted"
 				}
 			}
@@ -494,7 +523,7 @@ func execNsec3(f []string) vlib.Res {
 					res.Oracle = fmt.Sprintf("FAIL sig=agg3/%s/%s-set-accepted", want, kind)
 				case c != curZ3.z.cls:
 					res.Oracle = fmt.Sprintf("FAIL sig=agg3/%s/wrong-class", want)
-				case restsOnOptOut(q):
+				case restsOnOptOut(q, true):
 					res.Oracle = fmt.Sprintf("FAIL sig=agg3/%s/optout-span-used", want)
 				case truth != want:
 					res.Oracle = fmt.Sprintf("FAIL sig=agg3/%s/%s truth=%s", want, why, truth)
@@ -512,6 +541,13 @@ func execNsec3(f []string) vlib.Res {
 
 func genNsec3Case(r *vlib.R, emit func(string)) int {
 	z := genZone(r)
+	rich := r.Chance(1, 4)
+	if rich {
+		// a delegation-heavy zone: several insecure delegations to opt out
+		for i := 0; i < 3+r.Intn(4); i++ {
+			z.add(z.apex.child(fmt.Sprintf("d%d", i)), authTypes(tNS)...)
+		}
+	}
 	for _, nd := range z.nodes {
 		delete(nd.types, tNSEC) // an NSEC3-signed zone has no NSEC RRsets
 	}
@@ -526,7 +562,7 @@ func genNsec3Case(r *vlib.R, emit func(string)) int {
 	}
 	z3.iter = vlib.Pick(r, []int{0, 0, 0, 1, 2, 5, 10, 150})
 	optSpec := "-"
-	if r.Chance(2, 5) {
+	if rich || r.Chance(2, 5) {
 		z3.optOut = true
 		optSpec = "+"
 		var names []string
@@ -538,12 +574,33 @@ func genNsec3Case(r *vlib.R, emit func(string)) int {
 		}
 		if len(names) > 0 {
 			optSpec = strings.Join(names, ";")
+			if rich || r.Bool() {
+				z3.minimal = true
+				optSpec = "~" + optSpec
+			}
 		}
 	}
 	emit(fmt.Sprintf("h new %s %s %d %s", z.String(), vlib.Hex(z3.salt), z3.iter, optSpec))
 	curZ3 = z3 // the generator needs hashes of the zone it is building cases for
 	ring := z3.ring()
 	cnt := 1
+	// a question whose next-closer cover is clean while the wildcard cover at the
+	// apex carries Opt-Out (only possible with per-span flags)
+	if z3.minimal {
+		if w := coverIn(ring, hashOf(z.apex.child("*"), z3.salt, z3.iter)); w != nil && w.flags&1 == 1 {
+			for i := 0; i < 60; i++ {
+				q := z.apex.child(fmt.Sprintf("q%d", i))
+				if c := coverIn(ring, hashOf(q, z3.salt, z3.iter)); c != nil && c.flags&1 == 0 {
+					emit("h set " + recs3Str(ring))
+					curSet3 = ring
+					emit(fmt.Sprintf("h agg %s %s 1 1 %s", z.apex, q, hashTable(q, z.apex)))
+					emit(fmt.Sprintf("h nxd %s %s 1 1 %s", z.apex, q, hashTable(q, z.apex)))
+					cnt += 3
+					break
+				}
+			}
+		}
+	}
 	for round := 0; round < 2+r.Intn(3); round++ {
 		var set []rec3
 		switch k := r.Intn(10); {
@@ -565,7 +622,12 @@ func genNsec3Case(r *vlib.R, emit func(string)) int {
 		// genuine record (same owner hash: the conflict check sees them too), half
 		// sit at an owner hash of their own (only the tuple / class / zone checks can
 		// refuse those).
+		stranger := false
 		if r.Chance(1, 3) && len(ring) > 0 {
+			stranger = true
+			if r.Bool() {
+				set = append([]rec3(nil), ring...) // an otherwise complete proof set
+			}
 			x := vlib.Pick(r, ring)
 			if r.Bool() {
 				fake := z.apex.child(fmt.Sprintf("fake%d", r.Intn(1000)))
@@ -606,6 +668,18 @@ func genNsec3Case(r *vlib.R, emit func(string)) int {
 			}
 			set = append(set, x)
 		}
+		// a forged span that swallows a genuine owner hash: the match for that
+		// owner is then also covered (lookup must refuse); unjudged, model-vs-code
+		if r.Chance(1, 12) && len(ring) > 1 {
+			set = append([]rec3(nil), ring...)
+			b := vlib.Pick(r, ring)
+			x := b
+			x.ownerHash = append([]byte(nil), b.ownerHash...)
+			x.ownerHash[19]--
+			x.ownerLab = strings.ToLower(b32.EncodeToString(x.ownerHash))
+			x.types = []uint16{tA, tRRSIG}
+			set = append(set, x)
+		}
 		// forged interval (same chain parameters): unjudged, model-vs-code only
 		if r.Chance(1, 10) && len(ring) > 1 {
 			x := vlib.Pick(r, ring)
@@ -635,7 +709,10 @@ func genNsec3Case(r *vlib.R, emit func(string)) int {
 		curSet3 = set
 		cnt++
 		sg := genSigner(r, z)
-		if r.Chance(1, 3) {
+		if stranger {
+			sg = z.apex
+		}
+		if stranger || r.Chance(1, 3) {
 			emit("h prep " + sg.String())
 			cnt++
 		}
